@@ -85,7 +85,7 @@ def c06_1(ctx):
     fr = Fresh(f)
     calls = [c for c in df.calls_in(f.node) if df.last_attr(c) == "check_solution"]
     if len(calls) != 1 or not isinstance(calls[0].func, ast.Attribute):
-        raise AnalysisError("Tx.check_solution: delegating call not found")
+        raise Undecided("Tx.check_solution: delegating call not found")
     pv = fr.prov(calls[0].func.value, calls[0])
     ctx.check(pv[0], "checker-per-call", ctx.where(f, calls[0]),
               "Tx.check_solution validates through `%s`, which is not created inside the call (%s): cached state of an earlier validation can leak into this one"
@@ -129,7 +129,7 @@ def cache_scope(ctx):
     fr = Fresh(f)
     calls = [c for c in df.calls_in(f.node) if isinstance(c.func, ast.Name) and c.func.id == "checksig"]
     if len(calls) != 1:
-        raise AnalysisError("checksigs: expected one call of checksig")
+        raise Undecided("checksigs: expected one call of checksig")
     g = ctx.func(CHECKSIG, "checksig")
     gp = g.params()
     bind = dict(zip(gp, calls[0].args))
@@ -223,10 +223,19 @@ def c06_4(ctx):
 
 
 from rules import C04 as _C04
+from sa.refguard import guarded as _guarded
+
+
+def _c06_resolver(ctx, fi):
+    names = {"pycoin.satoshi.checksigops.checksigs": "cs_checksigs", "pycoin.satoshi.checksigops.checksig": "cs_checksig"}
+    if fi.qualname in names:
+        return _C04._ref(), names[fi.qualname], _C04.INTS
+    return None
+
 
 OBLIGATIONS = [
     Ob("C06.1", "validation call tree is stateless on the transaction and on the checker", c06_1, floor=40, engines="EF", breaks_if="validate, mutate an output, re-validate the same object"),
-    Ob("C06.2", "sighash cache is call-local, keyed by hash type, with loop-invariant co-inputs", cache_scope, floor=7, engines="EF,DF", breaks_if="two CHECKSIGs with one hash type where the second signature appears in the script"),
+    Ob("C06.2", "sighash cache is call-local, keyed by hash type, with loop-invariant co-inputs", _guarded(cache_scope, _c06_resolver), floor=7, engines="EF,DF,SYM", breaks_if="two CHECKSIGs with one hash type where the second signature appears in the script"),
     Ob("C06.3", "an input whose spent output is unknown is never reported valid; only ScriptError means invalid", c06_3, floor=8, engines="SYM,GI", breaks_if="input index beyond a non-empty, too short unspents list"),
     Ob("C06.4", "the per-input context is built from the current transaction fields", c06_4, floor=7, engines="SYM"),
     Ob("C06.5", "commitment contents: branch partition of all 256 hash types (shared with C04.1)", _C04.c04_1, floor=11, engines="SYM,GI(finite)", exhaustive=True,
